@@ -25,7 +25,7 @@ func init() {
 		Assumptions: []string{"string == is exact comparison", "fmt.Sprintf with %s of a string inserts it verbatim"},
 		Tech:        "static analysis: guarded-by-condition on SSA, acceptance-condition enumeration for all implementations of the partition interface, constant-folded format strings",
 		NeedU1:      true,
-		Rules:       []func(*Ctx){ruleC06CheckedBeforeUse, ruleC06ExactMatch, ruleC06IDFormat, ruleC06EmptyRefused, ruleC06IDFlowsUnmodified},
+		Rules:       []func(*Ctx){ruleC06CheckedBeforeUse, ruleC06ExactMatch, ruleC06IDFormat, ruleC06EmptyRefused, ruleC06IDFlowsUnmodified, ruleC18KeyIDOperands},
 	})
 }
 
@@ -170,6 +170,8 @@ func ruleC06ExactMatch(c *Ctx) {
 			c.bad(shortName(f), u.pos(f.Pos()), "accepts or rejects unconditionally (no comparison of the id)")
 			continue
 		}
+		okp, whyp := acceptsOnPositiveSide(f)
+		c.check(okp, shortName(f)+"/accepts-on-equal-side", u.pos(f.Pos()), "true only on the equal side of the comparisons", whyp+" — records of other partitions pass the partition check")
 		for _, l := range leaves {
 			construct := shortName(f) + "/condition[" + strings.ReplaceAll(describeLeaf(l), " ", "") + "]"
 			if x, isPrefix := prefixTestOf(l, f); isPrefix {
@@ -195,6 +197,94 @@ func ruleC06ExactMatch(c *Ctx) {
 			}
 		}
 	}
+}
+
+// acceptsOnPositiveSide: f returns true only on the "equal" side of its comparisons: a constant true is returned only
+// where a dominating (or incoming-edge) comparison fact has acceptance polarity (== taken true, != taken false, a
+// boolean call taken true), and a comparison returned as the value is not a != (nor a negated ==).
+func acceptsOnPositiveSide(f *ssa.Function) (bool, string) {
+	positive := func(facts []Fact) bool {
+		for _, fct := range facts {
+			if fct.Sub != nil {
+				continue
+			}
+			switch x := fct.V.(type) {
+			case *ssa.BinOp:
+				if x.Op == token.EQL && fct.True || x.Op == token.NEQ && !fct.True {
+					return true
+				}
+			case *ssa.Call:
+				if fct.True {
+					return true
+				}
+			}
+		}
+		return false
+	}
+	var eval func(v ssa.Value, at *ssa.BasicBlock, facts []Fact, neg bool, depth int) string
+	eval = func(v ssa.Value, at *ssa.BasicBlock, facts []Fact, neg bool, depth int) string {
+		if depth > 6 {
+			return "result too deeply nested to decide"
+		}
+		if k, isC := constOf(v); isC {
+			if (k.ExactString() == "true") != neg {
+				if facts != nil && positive(facts) {
+					return ""
+				}
+				if facts == nil && holdsOnAllEntries(at, positive) {
+					return ""
+				}
+				return "true is returned on a path that is not the equal side of a comparison with the partition's own key id"
+			}
+			return ""
+		}
+		switch x := v.(type) {
+		case *ssa.UnOp:
+			if x.Op == token.NOT {
+				return eval(x.X, at, facts, !neg, depth+1)
+			}
+		case *ssa.BinOp:
+			switch x.Op {
+			case token.EQL:
+				if neg {
+					return "the negation of an equality is returned: every id except the partition's own is accepted"
+				}
+				return ""
+			case token.NEQ:
+				if !neg {
+					return "a != comparison is returned as the verdict: every id except the partition's own is accepted"
+				}
+				return ""
+			}
+		case *ssa.Call:
+			if neg {
+				return "the negation of a test is returned as the verdict"
+			}
+			return ""
+		case *ssa.Phi:
+			for k, e := range x.Edges {
+				p := x.Block().Preds[k]
+				fs := append(append([]Fact{}, factsAt(p)...), edgeFacts(p, x.Block())...)
+				if len(p.Preds) == 1 && len(p.Instrs) <= 1 {
+					fs = append(fs, edgeFacts(p.Preds[0], p)...)
+				}
+				if why := eval(e, p, fs, neg, depth+1); why != "" {
+					return why
+				}
+			}
+			return ""
+		}
+		return "verdict value not recognised"
+	}
+	for _, r := range returnsOf(f) {
+		if len(r.Results) == 0 {
+			continue
+		}
+		if why := eval(returnedValue(r, 0), r.Block(), nil, false, 0); why != "" {
+			return false, why
+		}
+	}
+	return true, ""
 }
 
 // prefixTestOf: the leaf is a prefix test of the id against some string X (strings.HasPrefix(id, X) or
